@@ -257,6 +257,7 @@ def run_pipe(spec, res):
     from ..common import import_lazy_dataset
     from ..terms import Fn
     from .c20 import shared_random
+    from ..common import stable_hash
     ld = import_lazy_dataset()
     rng = rng_for(spec['seed'], PROPERTY, spec['name'])
     srcs = [('dict', 5, 'pickle'), ('list', 7, 'pickle'), ('dict', 2, 'copy'),
@@ -306,10 +307,89 @@ def run_pipe(spec, res):
                  lambda d: ld.core.ProfilingDataset(d.prefetch(2, 2, 't')), True),
                 ('map(g,num_workers=2,buffer=2).copy()',
                  lambda d: d.map(Fn('g'), num_workers=2, buffer_size=2).copy(), False)]
+    class FailFns(programs.Fns):
+        """raiser(ids, kind): a map that raises an exception of a type the
+        stages also use for their own control flow."""
+        KINDS = {'index': IndexError, 'key': KeyError, 'value': ValueError,
+                 'stop': StopIteration, 'assert': AssertionError}
+
+        def raiser(self, ids, kind, stage):
+            from ..terms import sid
+            exc = self.KINDS[kind]
+
+            def r(x):
+                if sid(x) in ids:
+                    raise exc(('user', sid(x)))
+                return ('r', x)
+            return r
+
+    def consume(ds):
+        got = []
+        try:
+            for x in ds:
+                got.append(x)
+            return got, None
+        except BaseException as e:
+            inner = e.__cause__ or e.__context__
+            name = type(e).__name__
+            if name == 'RuntimeError' and isinstance(inner, StopIteration):
+                name = 'StopIteration'
+            return got, name
+
+    def check_errors(prog, m):
+        """The same pipeline over a source stage that raises for one example:
+        what the sequential pipeline does (delivers everything because the
+        example is left out, or a prefix and then the error) the parallel
+        stage does too - it never delivers a wrong example instead."""
+        k = stable_hash(repr(prog))
+        if k % 3:
+            return
+        if any(op[0] == 'batch' and op[2] for op in prog['ops']):
+            # iteration has to evaluate the tail that drop_last drops, index
+            # access (the pool path) does not: a difference by design
+            return
+        kind = ('index', 'key', 'value', 'stop', 'assert')[(k // 3) % 5]
+        fail = (0, 1, max(0, prog['src'][1] - 1), 2)[(k // 15) % 4]
+        fprog = {'src': prog['src'], 'ops': [('mapfail', (fail,), kind)] + list(prog['ops'])}
+        st, mf = programs.classify(fprog)
+        if st != 'ok' or not mf.finite:
+            return
+        try:
+            with ob.watchdog(20):
+                def outcome(mk):
+                    try:
+                        return consume(mk())
+                    except BaseException as e:
+                        inner = e.__cause__ or e.__context__
+                        name = type(e).__name__
+                        if name == 'RuntimeError' and isinstance(inner, StopIteration):
+                            name = 'StopIteration'
+                        return [], 'construction:' + name
+                seq = outcome(lambda: programs.build(ld, fprog, FailFns()))
+                for name, wrap, needs_index in variants:
+                    if 'Profiling' in name or 'map(g' in name:
+                        continue
+                    if needs_index and not (getattr(mf, 'findexable', mf.indexable)
+                                            and mf.sized and mf.copyable):
+                        continue
+                    got = outcome(lambda: wrap(programs.build(ld, fprog, FailFns())))
+                    res.count('pipeline_error_transparency_comparisons')
+                    res.case(('pipe-err', repr(fprog), name), True)
+                    if got[1] != seq[1] or got[0] != seq[0][:len(got[0])] or \
+                            (seq[1] is None and got[0] != seq[0]):
+                        res.violation('delivered-sequence-differs',
+                                      {'prog': fprog, 'stage': name, 'user_error': kind},
+                                      {'sequential': seq, 'parallel': got},
+                                      sig={'entry': 'pipeline', 'stage': name.split('(')[0],
+                                           'error_path': True})
+        except ob.Watchdog:
+            res.inconclusive_because(f'watchdog on {fprog!r}')
+
     for prog in progs():
         status, m = programs.classify(prog)
         if status != 'ok' or not m.finite or m.n < 1:
             continue
+        check_errors(prog, m)
         case = {'prog': prog}
         try:
             with ob.watchdog(20):
